@@ -194,15 +194,46 @@ def mergeSegs (vs : List (String × Verdict)) : Verdict :=
       | (n, v) :: _ => if n == (vs.head?.map (·.1)).getD "" then "" else "[entry point " ++ n ++ ": model " ++ v.model ++ "] "
     { agree := vs.all (·.2.agree), spec := spec, tags := v0.tags, model := note ++ v0.model }
 
-/-- `Font::load`, `Font::load_requested_data(default)`, `Font::load_requested_data(groups + kerning only)`;
-    the third loads no layers, so the glyph set is empty -/
+/-- request shape id ↦ (name, groups requested, kerning requested, layers requested); the ids of
+    `harness/src/c15.rs: request_shape` -/
+def shapeOf (id : Nat) : String × Bool × Bool × Bool :=
+  match id with
+  | 0 => ("Font::load", true, true, true)
+  | 1 => ("load_requested_data(default)", true, true, true)
+  | 2 => ("load_requested_data(none.groups.kerning)", true, true, false)
+  | 3 => ("load_requested_data(default.kerning(false))", true, false, true)
+  | 4 => ("load_requested_data(default.groups(false))", false, true, true)
+  | 5 => ("load_requested_data(default.groups(false).kerning(false))", false, false, true)
+  | 6 => ("load_requested_data(default.lib(false))", true, true, true)
+  | 7 => ("load_requested_data(none.groups)", true, false, false)
+  | 8 => ("load_requested_data(none.kerning)", false, true, false)
+  | 9 => ("load_requested_data(none.kerning.groups)", true, true, false)
+  | 10 => ("load_requested_data(default.layers(false))", true, true, false)
+  | 11 => ("load_requested_data(default.kerning(false).kerning(true))", true, true, true)
+  | 12 => ("load_requested_data(all.kerning(false).features(false).data(false).images(false))", true, false, true)
+  | _ => ("load_requested_data(none.layers.groups)", true, false, true)
+
+/-- one segment `@<shape> <outcome>`: what is not requested is, for the model and for the specification, a
+    file that is not there (groups: nothing returned, nothing validated; kerning: the conversion sees no
+    pairs, so only the legacy-prefixed groups are sources; layers: the glyph set is empty) -/
+def runShapeSeg (fmt g k s l : String) (seg : List String) : String × Verdict :=
+  match seg with
+  | idTok :: o =>
+    match (idTok.drop 1).toString.toNat? with
+    | some id =>
+      if idTok.startsWith "@" then
+        let (name, gq, kq, lq) := shapeOf id
+        (name, runLoadSeg fmt (if gq then g else "G!") (if kq then k else "K!")
+          (if lq then s else "S:") (if lq then l else "L:") o)
+      else ("?", { agree := false, model := "bad-segment" })
+    | none => ("?", { agree := false, model := "bad-segment" })
+  | [] => ("?", { agree := false, model := "bad-segment" })
+
 def runLoad (fmt g k s l : String) (obs : List String) : Verdict :=
   match segments obs with
-  | [o1] => runLoadSeg fmt g k s l o1
-  | [o1, o2, o3] => mergeSegs [("Font::load", runLoadSeg fmt g k s l o1),
-      ("Font::load_requested_data(default)", runLoadSeg fmt g k s l o2),
-      ("Font::load_requested_data(groups,kerning)", runLoadSeg fmt g k "S:" "L:" o3)]
-  | _ => { agree := false, model := "bad-observation" }
+  | [] => { agree := false, model := "bad-observation" }
+  | [seg] => (runShapeSeg fmt g k s l seg).2
+  | segs => mergeSegs (segs.map (runShapeSeg fmt g k s l))
 
 /-- `Font::save`, `Font::save_with_options(default)`, `Font::save_with_options(two spaces, single quotes)` -/
 def runSave (g : String) (obs : List String) : Verdict :=
